@@ -108,6 +108,27 @@ def generate(build_dir):
             except (Exception, SystemExit):
                 files, routing = ["run-failed"], []
             comb.append((mode, files, routing))
+        # paired {name} with adapters for R2 only: the name is that of the last match on R1 - there is none
+        r2only = []
+        for mode in ("plain", "discard"):
+            shutil.rmtree(d, ignore_errors=True)
+            os.makedirs(d)
+            with open(os.path.join(d, "in1.fastq"), "w") as f:
+                f.write(_fastq([(n, a) for n, a, b in pairs]))
+            with open(os.path.join(d, "in2.fastq"), "w") as f:
+                f.write(_fastq([(n, b) for n, a, b in pairs]))
+            argv = ["--quiet"] + [t for n, k in r2ads for t in ("-A", f"{n}={S[k]}")]
+            if mode == "discard":
+                argv.append("--discard-untrimmed")
+            argv += ["-o", os.path.join(d, "dm-{name}.1.fastq"), "-p", os.path.join(d, "dm-{name}.2.fastq"),
+                     os.path.join(d, "in1.fastq"), os.path.join(d, "in2.fastq")]
+            try:
+                _run(cli, argv)
+                files, where = _where(d)
+                routing = [(p, where.get(p, [])) for p, _, _ in pairs]
+            except (Exception, SystemExit):
+                files, routing = ["run-failed"], []
+            r2only.append((mode, files, routing))
     finally:
         shutil.rmtree(d, ignore_errors=True)
     lst_ = lambda xs: "[" + ", ".join('"%s"' % x for x in xs) + "]"
@@ -125,5 +146,8 @@ def generate(build_dir):
            "def demuxSingle : List (Nat × String × List String × List (String × List String)) := [",
            ",\n".join(f'  ({li}, "{m}", {lst_(fs)}, {rout(r)})' for li, m, fs, r in single), "]", "",
            "def demuxComb : List (String × List String × List (String × List String)) := [",
-           ",\n".join(f'  ("{m}", {lst_(fs)}, {rout(r)})' for m, fs, r in comb), "]", "", "end Cutadapt.Generated", ""]
+           ",\n".join(f'  ("{m}", {lst_(fs)}, {rout(r)})' for m, fs, r in comb), "]", "",
+           "/-- paired-end `{name}` with adapters for R2 only (x=S3, y=S1), the same probe pairs -/",
+           "def demuxR2Only : List (String × List String × List (String × List String)) := [",
+           ",\n".join(f'  ("{m}", {lst_(fs)}, {rout(r)})' for m, fs, r in r2only), "]", "", "end Cutadapt.Generated", ""]
     return "Demux.lean", "\n".join(out)
